@@ -322,6 +322,20 @@ def run_fit(env, case, dataset, model, df=None, algo_box=None):
                     with tempfile.TemporaryDirectory() as d:
                         settings.save(os.path.join(d, "fit_settings.json"))
                         model.fit(data, algorithm_settings_path=os.path.join(d, "fit_settings.json"))
+                elif entry == "reconf":
+                    # the algorithm object is built with OTHER lengths and re-configured afterwards through the documented
+                    # `load_parameters` (its docstring example does exactly this): the run follows what the parameters say then
+                    kw_first = dict(kw, n_iter=kw["n_iter"] + 5)
+                    kw_first.pop("n_burn_in_iter_frac", None)
+                    kw_first["n_burn_in_iter"] = (kw["n_iter"] + 3) if case["n_burn"] <= kw["n_iter"] // 2 else 0
+                    import warnings as _w
+                    with _w.catch_warnings():
+                        _w.simplefilter("ignore")
+                        algo = algorithm_factory(AlgorithmSettings("mcmc_saem", **kw_first))
+                        algo.load_parameters({"n_iter": kw["n_iter"], "n_burn_in_iter": case["n_burn"]})
+                    if not model.is_initialized:
+                        model.initialize(dataset)
+                    algo.run(model, dataset)
                 else:
                     if algo_box is not None and algo_box.get("algo") is not None:
                         algo = algo_box["algo"]
@@ -1190,7 +1204,9 @@ def gen_wide_cases(chk):
                                 for o in ("default", "nodim")],
         # entry points and containers (every entry point once per run)
         "entry": lambda: [base(entry=e, container=c) for e, c in zip(("settings", "file", "run"),
-                                                                    rng.sample(["dataset", "data", "dataframe"], 3))],
+                                                                    rng.sample(["dataset", "data", "dataframe"], 3))]
+                         + [base(entry="reconf", model=rng.choice(["logistic", "linear"]), n_ind=rng.randint(5, 8), miss=0.15,
+                                 n_iter=rng.randint(5, 8), n_burn=nb) for nb in (rng.choice([1, 2]), rng.choice([4, 5]))],
         # settings each tested alone elsewhere
         "settings": lambda: base(settings=settings(frac=True), n_burn=rng.randint(0, 2)),
         "settings-entry": lambda: base(settings=settings(), entry=rng.choice(["settings", "file", "run"])),
